@@ -66,7 +66,7 @@ def observe_case(mod, d, c, how="ctor"):
     """-> observation record (JSON-able) of constructing/packing/re-parsing on the real classes"""
     from bind import observe
     cls = getattr(mod, d["root"])
-    obs = {"prog": d["prog"], "root": d["root"], "K": c["K"], "mod": c["mod"], "how": how}
+    obs = {"prog": d["prog"], "root": d["root"], "K": c["K"], "mod": c["mod"], "how": how, "eqtest": bool(d.get("eqtest"))}
     try:
         if how == "ctor":
             obj = cls(**build_kwargs(mod, c["K"]))
@@ -191,7 +191,9 @@ def compare(obs, c):
         return ["ctor_error"]
     if obs["cv"] != c["V"]:
         mm.append("conf_construct")
-    if "Vvis" in c and obs["vis"] != c["Vvis"]:
+    nested_desc = any(f.get("desc", {}).get("kind", "none") != "none"
+                      for cn, cd in obs["prog"].items() if cn != obs["root"] for f in cd["fields"])
+    if "Vvis" in c and not nested_desc and obs["vis"] != c["Vvis"]:      # (VisibleVals is defined for the root's descriptors)
         mm.append("C19_Visible")        # what the attributes read as (described fields: forced by keyword, else computed)
     if obs["shared_with_fresh"]:
         mm.append("C13_shared_default")
